@@ -50,7 +50,12 @@ Tag(t, op, v) == [a |-> "tag", tag |-> t, op |-> op, val |-> v]
 Fld(op, n) == [a |-> "fld", op |-> op, n |-> n]
 Bool(b) == [a |-> "bool", b |-> b]
 Or(l, r) == [a |-> "or", l |-> l, r |-> r, par |-> TRUE]
+\* NTLevel = 9: only parenthesised OR groups of two tag atoms (C18: the group must keep its parentheses
+\* through every strip / fold / print / re-parse round)
+OrGroups == {Or(Tag("t1", "=", "x"), Tag("t2", "=", "y")), Or(Tag("t1", "!=", "x"), Tag("t2", "=", "y")),
+             Or(Tag("t1", "=", "x"), Tag("t1", "=", "y")), Or(Tag("t2", "!=", "y"), Tag("t1", "=", "y"))}
 NTAlpha ==
+  IF NTLevel = 9 THEN OrGroups ELSE
   {Tag("t1", "=", "x"), Or(Tag("t1", "=", "x"), Tag("t2", "=", "y")), Bool(TRUE)}
   \cup (IF NTLevel >= 1 THEN {Tag("t2", "!=", "y"), Fld(">", 1), Bool(FALSE),
                               Or(Tag("t1", "=", "y"), Bool(FALSE)), Or(Fld("<=", 1), Tag("t2", "!=", "x"))} ELSE {})
